@@ -194,6 +194,12 @@ func ruleC08(c *Ctx) {
 	c.rule("C08-R3", "accessor idioms: Get = first value or \"\", GetSize = len or 0, GetAll = all values in index order; nil map and absent key give empty results")
 	c.rule("C08-R8", "parser and serialiser run with etree's default settings: no library function touches Document.ReadSettings / WriteSettings (the contracts for parse, copy, canonicalise and re-serialise — text recovered across CDATA, comments, character references — are those of the defaults); positive control must fire")
 	parserDefaults(c, "C08-R8")
+	c.rule("C08-R9", "compressed and raw presentation are treated alike up to the limit: maybeDeflate's bounded-read / explicit-check / same-decoder rules (shared with C12-R2..R4) — a limit that is off by one refuses the compressed form of a message whose raw form is accepted")
+	nDefl := shareFrom(c, "C08-R9", ruleC12, func(o *Obligation) bool {
+		return o.Rule == "C12-R2" || o.Rule == "C12-R3" || o.Rule == "C12-R4"
+	})
+	c.count("C08-R9", nDefl)
+	c.floor("C08-R9", 8)
 	c.rule("C08-R4", "decode targets are fresh and decoded from the verified element (shared with C01-R1/R2): the assertion list returned is exactly what was decoded from signed bytes")
 	checkSchemaTable(c, "C08-R1", schemaTable)
 	decodedImmutable(c, "C08-R6")
